@@ -141,6 +141,6 @@ func TestVerifC06StreamWriter(t *testing.T) {
 			}
 			return nil
 		},
-		MinLabelFrac: map[string]float64{">= 2 segments": 0.5, "restart": 0.3},
+		MinLabelFrac: map[string]float64{">= 2 segments": 0.3, "restart": 0.15},
 	})
 }
